@@ -296,3 +296,26 @@ def r_element(ctx, func_refs: typing.Iterable[str], rule: str = 'R-ELEMENT') -> 
                 call, receiver=recv.ref,
             )
     return n
+
+
+# --------------------------------------------------------------------------------------------------
+# R-ZIPEQ
+# --------------------------------------------------------------------------------------------------
+def r_zipeq(ctx, fn: core.FuncInfo, rule: str = 'R-ZIPEQ') -> None:
+    """An equality that compares element-wise through ``zip(a, b)`` must also compare the lengths (or use
+    ``strict=True``): zip truncates to the shorter operand, so a strict prefix would otherwise compare equal."""
+    zips = [c for c in core.calls_in(fn.node) if core.call_name(c) == 'zip' and len(c.args) == 2]
+    if not zips:
+        ctx.ok(rule, fn, 'no zip-based element-wise comparison', fn.node)
+        return
+    for z in zips:
+        strict = any(k.arg == 'strict' and core.is_const(k.value, True) for k in z.keywords)
+        a, b = core.src(z.args[0]), core.src(z.args[1])
+        lens = False
+        for n in ast.walk(fn.node):
+            if isinstance(n, ast.Compare) and len(n.ops) == 1 and isinstance(n.ops[0], ast.Eq):
+                l, r = core.src(n.left), core.src(n.comparators[0])
+                if {l, r} == {f'len({a})', f'len({b})'}:
+                    # must be in a conjunction with the element-wise test (same BoolOp And) or an earlier early-exit
+                    lens = True
+        ctx.check(strict or lens, rule, fn, f'element-wise comparison over zip({a}, {b}) is paired with a length comparison (a strict prefix must not compare equal)', z, key=f'zip:{a},{b}')
